@@ -128,7 +128,8 @@ Inductive op :=
 | ORange (lo hi : Z)
 | ODelete (id : N)
 | OReload
-| OWrite (ts : list Z).
+| OWrite (ts : list Z)
+| OFailNext.   (* fault injection: the next kv-store Update (metadata commit) fails once *)
 
 Inductive obs :=
 | RUnit
@@ -157,6 +158,48 @@ Definition step (st : state) (o : op) : state * obs :=
       | Some (st', lst) => (st', RMap (map (fun t => option_map g_id (sg_at lst t)) ts))
       | None => (st, RErr)
       end
+  | OFailNext => (st, RUnit)
+  end.
+
+(** Steps with a pending injected store failure ([true] = the next commit fails).
+    [Client.commit] writes the snapshot BEFORE it swaps the cache, so a failed
+    commit returns an error and leaves the state unchanged; operations that do not
+    commit (look-ups, reload, a create/write fully served by existing groups, a
+    delete of an unknown id) keep the failure pending.  A batch write commits for
+    the first time at the first group it has to create, so it fails there with
+    nothing created.  (OSetD is a harness manipulation, never failed.) *)
+Definition step_f (sf : state * bool) (o : op) : (state * bool) * obs :=
+  let (st, f) := sf in
+  match o with
+  | OFailNext => ((st, true), RUnit)
+  | _ =>
+    if negb f then let (st', r) := step st o in ((st', false), r) else
+    match o with
+    | OCreate t =>
+        match by_timestamp (st_gs st) t with
+        | Some _ => let (st', r) := step st o in ((st', true), r)
+        | None => ((st, false), RErr)
+        end
+    | OWrite ts =>
+        if forallb (fun t => match by_timestamp (st_gs st) t with Some _ => true | None => false end) ts
+        then let (st', r) := step st o in ((st', true), r)
+        else ((st, false), RErr)
+    | ODelete id =>
+        if existsb (fun g => N.eqb (g_id g) id) (st_gs st) then ((st, false), RErr) else ((st, true), RErr)
+    | _ => let (st', r) := step st o in ((st', true), r)
+    end
+  end.
+
+Fixpoint run_f (sf : state * bool) (ops : list op) : list (obs * list group) :=
+  match ops with
+  | [] => []
+  | o :: r => let (sf', ob) := step_f sf o in (ob, st_gs (fst sf')) :: run_f sf' r
+  end.
+
+Fixpoint final_f (sf : state * bool) (ops : list op) : state * bool :=
+  match ops with
+  | [] => sf
+  | o :: r => final_f (fst (step_f sf o)) r
   end.
 
 Fixpoint run (st : state) (ops : list op) : list (obs * list group) :=
@@ -188,12 +231,13 @@ Definition sep (g h : group) : bool :=
 Definition find_id (gs : list group) (id : N) : option group :=
   find (fun g => N.eqb (g_id g) id) gs.
 
-(** a point routed earlier to group [id] is still inside that group (if it still
-    exists and is not deleted) *)
+(** a point ACCEPTED earlier into group [id]: that group still exists under the same
+    id (metadata groups are only ever marked deleted in these histories, and ids
+    are never re-used) and, unless deleted, still contains the point *)
 Definition still_routed (gs : list group) (w : Z * N) : bool :=
   match find_id gs (snd w) with
   | Some g => g_del g || contains g (fst w)
-  | None => true
+  | None => false   (* the group an accepted point was routed to never disappears *)
   end.
 
 Definition routed_ok (gs : list group) (t : Z) (r : option N) : bool :=
@@ -253,14 +297,27 @@ Definition routed_of (o : op) (r : obs) : list (Z * N) :=
   | _, _ => []
   end.
 
-Fixpoint oracle (prev : list group) (w : list (Z * N)) (ops : list op)
+(** [pend] = an injected store failure is pending (known from the inputs).  An
+    error from a create/write/delete-of-existing-group is legitimate only then, it
+    consumes the failure and must leave the groups unchanged. *)
+Definition is_err (r : obs) : bool := match r with RErr => true | _ => false end.
+
+Fixpoint oracle (pend : bool) (prev : list group) (w : list (Z * N)) (ops : list op)
          (res : list (obs * list group)) : bool :=
   match ops, res with
   | [], [] => true
   | o :: ops', (r, gs) :: res' =>
       let w' := routed_of o r ++ w in
-      op_ok prev gs o r && pairwise sep gs && forallb (still_routed gs) w'
-      && oracle gs w' ops' res'
+      let fails :=   (* an error that consumes the pending failure *)
+        match o with
+        | OCreate _ | OWrite _ => is_err r
+        | ODelete id => is_err r && existsb (fun g => N.eqb (g_id g) id) prev
+        | _ => false
+        end in
+      let pend' := match o with OFailNext => true | _ => if fails then false else pend end in
+      (if fails then pend && list_eqb group_eqb prev gs else op_ok prev gs o r)
+      && pairwise sep gs && forallb (still_routed gs) w'
+      && oracle pend' gs w' ops' res'
   | _, _ => false
   end.
 
@@ -279,6 +336,6 @@ Definition res_eqb (a b : obs * list group) : bool :=
   obs_eqb (fst a) (fst b) && list_eqb group_eqb (snd a) (snd b).
 
 Definition check (c : case) : verdict :=
-  let m := run (init (c_d c)) (c_ops c) in
+  let m := run_f (init (c_d c), false) (c_ops c) in
   let res := expand [] (c_res c) in
-  judge (list_eqb res_eqb res m) (oracle [] [] (c_ops c) res).
+  judge (list_eqb res_eqb res m) (oracle false [] [] (c_ops c) res).
